@@ -91,6 +91,10 @@ class ObjCTypesBackend(ObjCBaseBackend):
         Each namespace will have Obj C classes to represent data types and
         routes in the Stone spec.
         """
+        # The lookup table is a class attribute: start every run from scratch
+        # so that types of an API generated earlier in the process cannot leak.
+        self.obj_name_to_namespace = {}
+
         rsrc_folder = os.path.join(os.path.dirname(__file__), 'obj_c_rsrc')
         rsrc_output_folder = os.path.join(self.target_folder_path, 'Resources')
 
